@@ -1541,6 +1541,15 @@ fn main() {
             space: def(0, &[&[16, 64, 257, 1025]], &[256], &[Sh::SampCut, Sh::English]),
             run: run_pazip,
         }));
+        // payloads at the 1 MiB limit from which `compress` splits its input into 64 KiB blocks (compress_parallel); the
+        // default and high_compression presets have multithreading on, realtime has it off (control)
+        reg.add(Enum(Family {
+            name: "PaZipCompressor/block-path",
+            variants: if q { sv(&["default/english"]) } else { sv(&["default/english", "high_compression/english", "realtime/english"]) },
+            trains: same.clone(),
+            space: if q { def(0, &[&[1048576 + 10]], &[256], &[Sh::English]) } else { def(0, &[&[1048575, 1048576, 1048576 + 10, 3 * 1048576 + 77]], &[256], &[Sh::English, Sh::Noise, Sh::Zero]) },
+            run: run_pazip,
+        }));
         reg.add(Enum(Family {
             name: "dict_zip::FseLayer",
             variants: sv(&[
